@@ -1349,7 +1349,9 @@ func exactPositionLoopSymbolic(w *World, r *Report, f *ssa.Function, name, pos s
 		if bo, ok := stripConv(a).(*ssa.BinOp); ok && bo.Op.String() == "+" {
 			if k, isK := constInt(bo.Y); isK && k == 1 {
 				if sub, ok := stripConv(bo.X).(*ssa.BinOp); ok && sub.Op.String() == "-" {
-					if strings.HasSuffix(symOf(sub.X).String(), "portRange.high") && strings.HasSuffix(symOf(sub.Y).String(), "portRange.low") {
+					// (the difference taken in 16 bits and widened, or of the two bounds widened first: a
+					// widening conversion keeps the value)
+					if strings.HasSuffix(symOf(stripConv(sub.X)).String(), "portRange.high") && strings.HasSuffix(symOf(stripConv(sub.Y)).String(), "portRange.low") {
 						good = true
 					}
 				}
@@ -1398,11 +1400,12 @@ func exactPositionLoopSymbolic(w *World, r *Report, f *ssa.Function, name, pos s
 			nPort++
 			good := false
 			if bo, ok := stripConv(st.Val).(*ssa.BinOp); ok && bo.Op.String() == "+" {
-				x, y := bo.X, bo.Y
+				// low + trunc(i) and trunc(widen(low) + i) are the same 16-bit value
+				x, y := stripConv(bo.X), stripConv(bo.Y)
 				if strings.HasSuffix(symOf(y).String(), "portRange.low") {
 					x, y = y, x
 				}
-				if strings.HasSuffix(symOf(x).String(), "portRange.low") && stripConv(y) == ia.Index {
+				if strings.HasSuffix(symOf(x).String(), "portRange.low") && y == stripConv(ia.Index) {
 					good = true
 				}
 			}
